@@ -280,6 +280,82 @@ pub fn run(cfg: &Cfg, rep: &mut Report) {
             }
         }
     }
+    // 1b. boundary code points in every syntactic position that lowers them differently:
+    // class ranges ending / starting exactly at encoding and table boundaries, single literals,
+    // small sets; under every mode, with and without i, with and without the optimizer.
+    let bounds: [u32; 22] = [0x0, 0x1, 0x2F, 0x30, 0x7E, 0x7F, 0x80, 0x81, 0xFF, 0x100, 0x7FF, 0x800, 0xD7FF, 0xD800, 0xDBFF, 0xDC00, 0xDFFF, 0xE000, 0xFFFF, 0x10000, 0x10FFFE, 0x10FFFF];
+    let esc = |c: u32, v: &mut Vec<u32>| {
+        if matches!(char::from_u32(c), Some('\\' | ']' | '[' | '^' | '-' | '(' | ')' | '{' | '}' | '/' | '|' | '*' | '+' | '?' | '.' | '$')) {
+            v.push('\\' as u32);
+        }
+        v.push(c);
+    };
+    for (ai, &a) in bounds.iter().enumerate() {
+        for &b in &bounds[ai..] {
+            for shape in 0..6 {
+                let mut p: Vec<u32> = Vec::new();
+                match shape {
+                    0 => {
+                        p.push('[' as u32);
+                        esc(a, &mut p);
+                        p.push('-' as u32);
+                        esc(b, &mut p);
+                        p.push(']' as u32);
+                    }
+                    1 => {
+                        p.extend(cps("[^"));
+                        esc(a, &mut p);
+                        p.push('-' as u32);
+                        esc(b, &mut p);
+                        p.push(']' as u32);
+                    }
+                    2 => {
+                        p.push('[' as u32);
+                        esc(a, &mut p);
+                        esc(b, &mut p);
+                        p.push(']' as u32);
+                    }
+                    3 => {
+                        esc(a, &mut p);
+                        esc(b, &mut p);
+                    }
+                    4 => {
+                        p.extend(cps("(?<=["));
+                        esc(a, &mut p);
+                        p.push('-' as u32);
+                        esc(b, &mut p);
+                        p.extend(cps("]+)"));
+                        esc(a, &mut p);
+                        p.extend(cps("*?"));
+                    }
+                    _ => {
+                        p.extend(cps("[a"));
+                        esc(a, &mut p);
+                        p.extend(cps("]|[\\d"));
+                        esc(b, &mut p);
+                        p.extend(cps("]{2,}"));
+                    }
+                }
+                for fl in ["", "i", "u", "iu", "v", "iv"] {
+                    for no_opt in [false, true] {
+                        idx += 1;
+                        let h = fnv64(format!("b|{}|{}|{}|{}|{}", a, b, shape, fl, no_opt).as_bytes());
+                        if !cfg.mine(h) || skip(idx) {
+                            continue;
+                        }
+                        let desc = J::obj().set("pattern", engine::cps_to_string_lossy(&p)).set("pattern_cps", J::Arr(p.iter().map(|&c| J::from(c)).collect())).set("flags", fl).set("source", "boundary_code_points");
+                        if idx % 64 == 0 {
+                            rep.begin(idx, &desc);
+                        }
+                        rep.inc("programs");
+                        rep.inc("source.boundary_code_points");
+                        let out = run_case(rep, &desc, &p, Flags::from_str(fl), no_opt);
+                        rep.inc(&format!("outcome.{}", out));
+                    }
+                }
+            }
+        }
+    }
     // 2. truncated prefixes and single edits of corpus patterns, all flag sets of {none,u,v} x {none,i}
     let flagsets = ["", "u", "v", "i", "iu", "iv", "ms"];
     let mut rng = Rng::new(cfg.seed ^ 0x07);
